@@ -79,6 +79,7 @@ def run(prop, tier, seed):
     loader.load()
     run.model_check("MC_CircularRecord", "MC_CircularRecord_quick.cfg" if q else "MC_CircularRecord_thorough.cfg", timeout=7200)
     if prop == "C13":
+        run.model_check("MC_Locations", "MC_Locations_n5.cfg")
         run.model_check("MC_CircularRecord", "Neg_CircularRecord.cfg", expect_violation="C13_TrackFollows")
     if prop in ("C13", "C14"):
         rd.replay_transitions(run, "MC_CircularRecord_replay_quick.cfg" if q else "MC_CircularRecord_replay_thorough.cfg")
